@@ -1,0 +1,10 @@
+//go:build verif
+
+// Contracts for the deductive verifier under /verif (comment-only file: it
+// adds no code; compiled only with -tags verif).
+package cerrors
+
+//verif:func FatalError(err) (r)
+//verif:ensures[nil] err == nil ==> r == nil
+//verif:ensures[fatal] err != nil ==> r != nil && is_fatal(r)
+//verif:modifies nothing
